@@ -639,6 +639,86 @@ func releaseAtPoint(t *testing.T, idx int64, r *rand.Rand) {
 	rt.Distinct(fmt.Sprintf("rap|%s|%s|%d|%s|%d", c.Pool, c.Ordering, c.Limit, point, yields))
 }
 
+// cancelledAtTheGrant: a generic pool (any ordering) over an instrumented delegate, every unit held, one caller parked.
+// A holder completes; at the very moment the delegate grants the unit for the parked caller, that caller's context is
+// cancelled.  The caller may come back with the token or without it - either way nothing is lost: once everything has
+// completed the pool hands out its full limit at once.
+func cancelledAtTheGrant(t *testing.T, idx int64, r *rand.Rand) {
+	c := genCfg(r)
+	c.Pool = "generic"
+	c.Callers, c.Backlog, c.Timeout, c.Yields, c.SmallWin = c.Limit+1, 1+r.IntN(3), time.Hour, 0, false
+	if c.Ordering == "random" {
+		c.Timeout = 0
+	}
+	lost, granted := -1, false
+	rt.Scenario(fmt.Sprintf("C19/%s-%s/cancelled-at-the-grant", c.Pool, c.Ordering), idx, c)
+	defer rt.ScenarioDone()
+	bubble(t, func(t *testing.T) {
+		var armed atomic.Bool
+		ctx, cancel := context.WithCancel(inject.WithCaller(context.Background(), 77))
+		defer cancel()
+		p := buildWith(c, func(in core.Limiter) core.Limiter {
+			g := inject.NewGate(in)
+			g.Hook = func(e inject.GateEvent) {
+				if e.OK && e.Caller == 77 && armed.CompareAndSwap(true, false) {
+					cancel()
+					for i := 0; i < 200; i++ {
+						runtime.Gosched()
+					}
+				}
+			}
+			return g
+		})
+		var held []core.Listener
+		for i := 0; i < c.Limit; i++ {
+			l, ok := p.Acquire(context.Background())
+			if !ok {
+				panic("c19: unit refused")
+			}
+			held = append(held, l)
+		}
+		var l core.Listener
+		var ok bool
+		var done atomic.Bool
+		go func() { l, ok = p.Acquire(ctx); done.Store(true) }()
+		synctest.Wait()
+		armed.Store(true)
+		held[0].OnSuccess()
+		synctest.Wait()
+		granted = done.Load() && ok && l != nil
+		if granted {
+			l.OnSuccess()
+		}
+		for _, h := range held[1:] {
+			h.OnSuccess()
+		}
+		synctest.Wait()
+		lost = 0
+		var again []core.Listener
+		for i := 0; i < c.Limit; i++ {
+			pctx, pcancel := context.WithTimeout(context.Background(), 2*time.Second)
+			pl, pok := p.Acquire(pctx)
+			pcancel()
+			if !pok || pl == nil {
+				lost = c.Limit - i
+				break
+			}
+			again = append(again, pl)
+		}
+		for _, pl := range again {
+			pl.OnIgnore()
+		}
+		synctest.Wait()
+	})
+	rt.Count("cancelled_at_the_grant_cases", 1)
+	if lost != 0 {
+		rt.Violation(fmt.Sprintf("C19/%s-%s/pool-lost-capacity-after-every-token-completed/cancelled-at-the-grant", c.Pool, c.Ordering), idx, rt.J{"config": c, "units_lost": lost,
+			"cancelled_caller_came_back_with_the_token": granted})
+		return
+	}
+	rt.Distinct(fmt.Sprintf("catg|%s|%d|%v", c.Ordering, c.Limit, granted))
+}
+
 // twoReleasesTwoParked: a generic pool over the simple strategy, every unit held, two callers parked.  One holder
 // completes; while the hand-off for the first parked caller is inside the strategy (verif point between its check and
 // its add) a second holder completes in another goroutine.  Two units were released: both parked callers are served.
@@ -733,6 +813,8 @@ func TestCheck(t *testing.T) {
 			releaseAtPoint(t, idx, r)
 		} else if idx%22 == 3 {
 			twoReleasesTwoParked(t, idx, r)
+		} else if idx%22 == 14 {
+			cancelledAtTheGrant(t, idx, r)
 		} else {
 			virtualCase(t, idx, r)
 		}
